@@ -205,6 +205,74 @@ theorem idempotent (k k' : CoseKey) (ord : CborOrdering) (h : k.canonicalize ord
   rw [canonicalize_eq]
   rw [List.mergeSort_of_pairwise hs]
 
+/-! ### "every initial order": the canonical form depends only on the *set* of extra parameters -/
+
+/-- both comparisons are antisymmetric on labels that serialise (so `≤` both ways means the same label). -/
+theorem labelLe_antisymm (a b : Label) (ha : ValidLabel a) (hb : ValidLabel b)
+    (h1 : labelLe a b = true) (h2 : labelLe b a = true) : a = b := by
+  apply (cmp_eq_iff a b ha hb).mp
+  simp only [labelLe, cmp_is_lex a b ha hb, cmp_is_lex b a hb ha, lexCmp_swap (encLabel a) (encLabel b)] at h1 h2 ⊢
+  cases h : lexCmp (encLabel a) (encLabel b) <;> simp_all [Ordering.swap]
+
+theorem canonLe_antisymm (a b : Label) (ha : ValidLabel a) (hb : ValidLabel b)
+    (h1 : labelLeCanonical a b = true) (h2 : labelLeCanonical b a = true) : a = b := by
+  rw [canonLe_iff] at h1 h2
+  have hl : (encLabel a).length = (encLabel b).length := by omega
+  have l1 : lexLe (encLabel a) (encLabel b) = true := by
+    rcases h1 with h | h
+    · omega
+    · exact h.2
+  have l2 : lexLe (encLabel b) (encLabel a) = true := by
+    rcases h2 with h | h
+    · omega
+    · exact h.2
+  apply encLabel_injective a b ha hb
+  apply (lexCmp_eq_iff _ _).mp
+  simp only [lexLe, lexCmp_swap (encLabel a) (encLabel b)] at l1 l2
+  cases h : lexCmp (encLabel a) (encLabel b) <;> simp_all [Ordering.swap]
+
+theorem mem_eq_of_fst_eq {α β : Type} : ∀ (l : List (α × β)), (l.map (·.1)).Nodup →
+    ∀ a b, a ∈ l → b ∈ l → a.1 = b.1 → a = b
+  | [], _, _, _, ha, _, _ => by simp at ha
+  | x :: l, hnd, a, b, ha, hb, hab => by
+    simp only [List.map_cons, List.nodup_cons, List.mem_map, not_exists, not_and] at hnd
+    simp only [List.mem_cons] at ha hb
+    rcases ha with rfl | ha <;> rcases hb with rfl | hb
+    · rfl
+    · exact absurd hab.symm (hnd.1 b hb)
+    · exact absurd hab (hnd.1 a ha)
+    · exact mem_eq_of_fst_eq l hnd.2 a b ha hb hab
+
+/-- two keys whose extra parameters are the same label-value pairs in *any* two initial orders
+    canonicalise to the same parameter list (labels distinct and serialisable, as in every accepted key). -/
+theorem order_independent (k1 k2 k1' k2' : CoseKey) (ord : CborOrdering)
+    (hv : ∀ p ∈ k1.params, ValidLabel p.1) (hnd : (k1.params.map (·.1)).Nodup)
+    (hp : k1.params.Perm k2.params)
+    (h1 : k1.canonicalize ord = .ok k1') (h2 : k2.canonicalize ord = .ok k2') : k1'.params = k2'.params := by
+  have s1 := sorted k1 k1' ord h1
+  have s2 := sorted k2 k2' ord h2
+  have p1 := (perm k1 k1' ord h1).2.2.2.2.2
+  have p2 := (perm k2 k2' ord h2).2.2.2.2.2
+  have hpp : k1'.params.Perm k2'.params := p1.trans (hp.trans p2.symm)
+  refine List.Perm.eq_of_pairwise ?_ s1 s2 hpp
+  intro a b ha hb hab hba
+  have ha1 : a ∈ k1.params := p1.subset ha
+  have hb1 : b ∈ k1.params := hp.symm.subset (p2.subset hb)
+  apply mem_eq_of_fst_eq k1.params hnd a b ha1 hb1
+  cases ord with
+  | lexicographic => exact labelLe_antisymm a.1 b.1 (hv a ha1) (hv b hb1) hab hba
+  | lengthFirstLexicographic => exact canonLe_antisymm a.1 b.1 (hv a ha1) (hv b hb1) hab hba
+
+def witness2a : CoseKey := ⟨.assigned Gen.idx_KeyType_Symmetric, [], none, [], [], [(.int (-1), .null), (.text [0x61], .bool true), (.int 7, .null)]⟩
+def witness2b : CoseKey := ⟨.assigned Gen.idx_KeyType_Symmetric, [], none, [], [], [(.int 7, .null), (.int (-1), .null), (.text [0x61], .bool true)]⟩
+/-- the hypotheses are satisfiable by a non-trivial pair of keys (labels -1, "a", 7 in two different orders). -/
+example : (∀ p ∈ witness2a.params, ValidLabel p.1) ∧ (witness2a.params.map (·.1)).Nodup ∧
+    witness2a.params.Perm witness2b.params ∧ witness2a.params.map (·.1) ≠ witness2b.params.map (·.1) := by
+  refine ⟨?_, by decide, (List.perm_append_comm (l₁ := [((Label.int (-1), Value.null) : Label × Value), (Label.text [0x61], Value.bool true)]) (l₂ := [(Label.int 7, Value.null)]) :), by decide⟩
+  intro p hp
+  simp only [witness2a, List.mem_cons, List.not_mem_nil, or_false] at hp
+  rcases hp with rfl | rfl | rfl <;> simp [ValidLabel, I64, i64Min, i64Max]
+
 /-- the unrestricted claim "encoded keys strictly ascending" fails for a key with extra label 0:
     `{1: 4, 0: null}` comes back unchanged from both orderings and encodes with 01 before 00. -/
 def witness : CoseKey := ⟨.assigned Gen.idx_KeyType_Symmetric, [], none, [], [], [(.int 0, .null)]⟩
@@ -221,6 +289,7 @@ theorem sorted_refuted :
 #print axioms canonLe_trans
 #print axioms sorted
 #print axioms idempotent
+#print axioms order_independent
 #print axioms sorted_refuted
 
 end Coset.Props.C20
